@@ -8,6 +8,7 @@ import os, sys, glob, random, collections, json, hashlib
 import c01_intfmt
 import vlib, progen, langlib, lang_findings
 import c02
+import c01_builtins
 
 CORPUS_GLOBS = ['examples/language/*.nano', 'tests/*.nano', 'examples/verified/*.nano', 'tests/integration/*.nano']
 # programs whose output legitimately depends on the environment (argv, cwd, files, time): not "deterministic programs of the core language"
@@ -117,6 +118,8 @@ def run(ck):
         ck.fail('c01:corpus:' + rel, 'backends disagree on %s: exit vm=%s native=%s; first differing line %d: vm=%r native=%r' % (rel, vm['rc'], nat['rc'], i, lv, ln),
                 dict(file=rel, vm=dict(rc=vm['rc'], line=lv, err=vm['err'][-300:]), native=dict(rc=nat['rc'], line=ln)))
     ck.extra['corpus'] = dict(corp)
+    # ---- 4: every pure builtin on both backends over boundary operands, and compositions of them (tools/props/c01_builtins.py)
+    c01_builtins.sweep(ck, b)
     ck.extra['corpus_files'] = len(files)
     for k in ('classes', 'features', 'styles'):
         ck.extra[k] = dict(ck.extra[k])
